@@ -115,7 +115,8 @@ PLAN = {
         level_text="For generated route sets, trailing-slash options (global and per route), methods (GET, POST, CONNECT, custom) and encoded "
                    "request targets with reserved characters and query strings, the reference matcher run on the path and on its "
                    "slash-adjusted form predicts the tsr flag, the route and its parameters; the dispatch rules of the property predict "
-                   "served / redirected / unmatched; the Location header is parsed and resolved like a client would. Small pools are enumerated exhaustively.",
+                   "served / redirected / unmatched; the Location header is parsed and resolved like a client would. Small pools are enumerated exhaustively (thorough tier: also pairs of "
+                   "three-segment patterns with adjacent and mid-segment catch-alls against every path over {/ a} up to length 10 - the shape class of repaired defect H).",
         level_note="Trusts the reference matcher and net/url's reference resolution; ambiguity (catch-all value starting with '/') is counted and not judged.",
         rule="cases: (options, route set, request target); non-trivial = the reference prescribes a trailing-slash action and the method has "
              ">= 2 routes; distinct by (options, method, sorted patterns, host, target)",
@@ -125,6 +126,10 @@ PLAN = {
                R("random", "^TestRandom$", checks=25000, timeout=900)],
         thorough=[REPLAY,
                   R("exhaustive", "^TestExhaustive$", shards=16, env={"C08_EXH_SEGS": 2, "C08_EXH_SUBSET": 3, "C08_EXH_PATHLEN": 7}, timeout=3000),
+                  # deeper shapes (three segments, adjacent catch-alls, mid-segment catch-alls): the class in which defect H lived
+                  R("exhaustive-deep", "^TestExhaustive$", shards=16, timeout=3000,
+                    env={"C08_EXH_NAME": "-deep", "C08_EXH_SEGS": 3, "C08_EXH_SUBSET": 2, "C08_EXH_PATHLEN": 10,
+                         "C08_EXH_TOKENS": "a,{p%d},*{c%d},a*{c%d}", "C08_EXH_PATHALPHA": "/,a"}),
                   R("random", "^TestRandom$", checks=200000, shards=16, timeout=3000)],
     ),
     "C09": dict(
@@ -170,7 +175,8 @@ PLAN = {
                    "method-not-allowed/auto-OPTIONS combinations, the reference matcher decides per method whether a route serves the host and path; "
                    "the property's dispatch rules then give the expected handler kind and the exact Allow set, and the context seen inside each special handler is inspected.",
         level_note="CONNECT routes are kept out (whether a CONNECT route reachable only by ignoring a trailing slash 'serves' is not settled); with both options on, "
-                   "Allow for 405 may or may not contain OPTIONS (both accepted); OPTIONS * with only OPTIONS routes is not judged.",
+                   "OPTIONS is required in the 405 Allow set (the policy fox pins in its own tests; a router that never added it would fail fox's suite first); "
+                   "OPTIONS * with only OPTIONS routes is not judged.",
         rule="cases: (options, route set, request); non-trivial = a 405/OPTIONS answer where >= 2 methods serve the probe or a route contributes by ignoring a trailing slash; distinct by (options, routes, request)",
         assumptions=["reference matcher", "Allow is compared as a set"],
         quick=[REPLAY,
